@@ -49,15 +49,15 @@ type RColl struct {
 }
 
 type REntry struct {
-	Seq      int     `json:"seq"`
-	Ts       uint64  `json:"ts"`
-	Kind     string  `json:"k"` // tick ins del dropp dropc createc createp other
-	Coll     int64   `json:"c,omitempty"`
-	Shard    int     `json:"s,omitempty"`
-	Part     int64   `json:"p,omitempty"`
-	PartName string  `json:"pn,omitempty"`
-	Rows     []int64 `json:"rows,omitempty"`
-	Tag      int64   `json:"tag,omitempty"`
+	Seq      int      `json:"seq"`
+	Ts       uint64   `json:"ts"`
+	Kind     string   `json:"k"` // tick ins del dropp dropc createc createp other
+	Coll     int64    `json:"c,omitempty"`
+	Shard    int      `json:"s,omitempty"`
+	Part     int64    `json:"p,omitempty"`
+	PartName string   `json:"pn,omitempty"`
+	Rows     []int64  `json:"rows,omitempty"`
+	Tag      int64    `json:"tag,omitempty"`
 	Op       *WDEvent `json:"op,omitempty"` // Kind "op": an operation message on the replicate channel
 }
 
